@@ -31,8 +31,10 @@ def main(tier, seed, prop=PROP):
     jobs = []
     for i in range(0, len(doms), 2500):
         jobs.append((DG.w_literal, (exe, doms[i:i + 2500], "literals")))
+    jobs[0:0] = DG.huge_jobs(cx.exe("plain-O2", san="plain-O2"), DG.huge_literal_cases(tier))
     for part in core.pmap(_run, jobs):
         rep.merge(part)
+    rep.require(rep.counters.get("huge.strings", 0) > 0, "no 2 GiB input could be allocated")
     c = rep.counters
     evaluations = c["hl.accept"] + c["hl.reject"] + c["ll.accept"] + c["ll.reject"]
     rep.require(not (not (c["verdict.MUST_ACCEPT"] and c["verdict.MUST_REJECT"] and c["verdict.EITHER"])), "generator did not reach every verdict region")
